@@ -37,7 +37,8 @@ _REF = _re.compile(r"^(?P<base>[A-Za-z_][\w.]*)(?P<op>[*+?])?(?:\[(?P<sep>[\w.]+
 
 
 def split_ref(ref):
-    """'m.A*[T]' -> ('m.A', '*', 'T')"""
+    """'m.A*[T]' -> ('m.A', '*', 'T'); a named match 'n0=m.A' is the reference 'm.A'"""
+    ref = ref.split("=", 1)[-1]
     m = _REF.match(ref)
     return m.group("base"), m.group("op") or "", m.group("sep")
 
@@ -191,7 +192,7 @@ class Flat:
                     r = self.resolve(s[1], base)
                     if r is None:
                         return None
-                    name = self.flat_name(r) + op
+                    name = (ref.split("=", 1)[0] + "=" if "=" in ref else "") + self.flat_name(r) + op
                     if r not in seen:
                         todo.append(r)
                     if sep:
@@ -252,10 +253,20 @@ def d19(case, flat):
     return False
 
 
+def conv20(v):
+    """like c09.conv, but an object built for a rule with named matches is compared by its attributes only
+    (its class is named after the rule, which is spelled differently in the flattened grammar)"""
+    if isinstance(v, (list, tuple)):
+        return tuple(conv20(x) for x in v)
+    if hasattr(v, "_pg_children_names"):
+        return ("OBJ", tuple(sorted((n, conv20(getattr(v, n))) for n in v._pg_children_names)))
+    return v
+
+
 def outcome_lr(p, text):
     out = G.run_parse_soft(p, text, 0.5)
     if out.kind == "ok":
-        return ("ok", conv(out.value))
+        return ("ok", conv20(out.value))
     if out.kind == "syntax":
         return ("error", out.exc.location.start_position)
     return (out.kind, repr(out.exc)[:100])
@@ -270,7 +281,10 @@ def outcome_glr(p, text):
     n, loop = G.forest_len(out.value)
     if loop:
         return ("cyclic",)
-    vals = sorted({repr(conv(p.call_actions(out.value[i]))) for i in range(min(n, 60))})
+    try:
+        vals = sorted({repr(conv20(p.call_actions(out.value[i]))) for i in range(min(n, 60))})
+    except Exception as e:
+        return ("call_actions raises", type(e).__name__, str(e)[:100])
     return ("ok", n if n <= 60 else "many", vals)
 
 
@@ -507,6 +521,8 @@ def cases(draw):
                 out += ["%s.%s" % (alias, r) for r in refs_from(ti, depth + 1)]
         return out
     sugar = draw(st.integers(0, 2)) == 0      # repetition / optional sugar on (qualified) references
+    # named matches in some alternatives of some files (per file: the root may have none while an imported file has)
+    named_files = [draw(st.booleans()) for _ in files] if draw(st.integers(0, 2)) == 0 else [False] * len(files)
     for i, f in enumerate(files):
         pool = refs_from(i)
         for rn in f["rule_names"]:
@@ -522,6 +538,10 @@ def cases(draw):
                             if op != "?" and draw(st.integers(0, 2)) == 0:
                                 alt[k] += "[%s]" % draw(st.sampled_from(tn_))
                 alts.append(alt)
+            if named_files[i]:
+                # named matches (the rule then builds objects through the default obj action)
+                alts = [["n%d=%s" % (k, r) if not r[-1:] in "*+?]" and draw(st.integers(0, 1)) else r
+                         for k, r in enumerate(alt)] for alt in alts]
             # keep rules productive: one alternative of terminals only
             tn = [n for n, _ in f["terms"]]
             alts.append([draw(st.sampled_from(tn))])
@@ -539,7 +559,7 @@ def cases(draw):
                 files[fi]["rules"].append((tgt, [[draw(st.sampled_from(tn))], [tn[0], tn[0]]]))
     for f in files:
         del f["rule_names"]
-    return {"files": files, "shape": shape, "sugar": sugar, "kw": draw(st.integers(0, 2)) == 0,
+    return {"files": files, "shape": shape, "sugar": sugar, "named": any(named_files), "kw": draw(st.integers(0, 2)) == 0,
             "max_len": (4 if tcount[0] <= 4 else 3) - (1 if sugar else 0)}
 
 
